@@ -6,6 +6,7 @@ Require Import V.Base.MachineInt.
 Require Import V.Model.UriTypes.
 Require Import V.Model.UriSpec.
 Require Import V.Model.Uri.
+Require Import V.Model.UriSplit.
 Open Scope Z_scope.
 
 Definition pobs_same (a b : pobs) : bool :=
@@ -16,11 +17,20 @@ Definition pobs_same (a b : pobs) : bool :=
 
 (* ---- any input string: parsed or rejected, never a panic; an accepted uri survives printing ----- *)
 
+(* what was accepted is what the string says when it is cut as the grammar dictates (Model/UriSplit.v: at the first '?',
+   then at every '|', every piece at its first '='), a later occurrence of a key replacing an earlier one *)
+Definition reads_as (s p m : str) (ps : params) : bool :=
+  let '(h, kvs) := uri_read s in str_eqb h (uri_head p m) && params_equiv ps (last_wins kvs).
+
+(* `Disp x`: x is to_string() with its key=value segments brought into key order (the HashMap's order is not observed);
+   ps is in key order too. So x must be exactly the grammar string of what was read: to_string(parse(s)) is s up to the
+   order of the parameters and the removal of overwritten duplicates. *)
 Definition holds_parse_any (s : str) (r1 : pobs) (d : dobs) (r2 : pobs) : bool :=
   match r1 with
   | OOk p m ps =>
       (is_empty p || str_eqb p P_SPY) && forallb media_char_ok m && forallb entry_ok ps && keys_distinct ps
-      && match d with Disp _ => pobs_same r1 r2 | _ => false end
+      && reads_as s p m ps
+      && match d with Disp x => pobs_same r1 r2 && str_eqb x (spec_uri p m ps) | _ => false end
   | OErr _ => match d with NoDisp => true | _ => false end
   | _ => false
   end.
